@@ -62,6 +62,16 @@ CLAIMED["C05"] = dict(
          "1e-9*M+1e-12.",
     design_ref="DESIGN.md §4 C05")
 
+CLAIMED["C06"] = dict(
+    technique="Hypothesis-generated circuits and output requests; every returned column is checked against the "
+              "reference-interpreter trajectory of the variable its label names (label-directed differential)",
+    text="Output requests (dict/list form, wildcards at every level, several keys, permuted node order, vectorize "
+         "on/off, depth 0-2) over fingerprinted circuits: each column must carry the trajectory of the variable named by "
+         "its label and the column set must equal the addressed set.",
+    note="Only models whose single-path baseline already agrees with the reference are judged (others are counted as "
+         "rejected: they are C01/C04's subject). Population outputs are covered in C16's check.",
+    design_ref="DESIGN.md §4 C06")
+
 NOT_YET = {}
 
 
